@@ -98,6 +98,27 @@ func runParserProp(pp *pProp, tier string) int {
 			to = 120 * time.Second
 		}
 		outs := runParserCases(pw, reqs, to, env, pp.restart)
+	// a child that did not answer in time may just be slow (a loaded machine, a
+	// costly case): run the case again, alone, with five times the limit before
+	// it counts as a hang
+	for i := range outs {
+		if outs[i].Status != "hang" {
+			continue
+		}
+		w := &worker{bin: pw.bin, env: env}
+		resp, st, detail := pcall(w, reqs[i], 5*to)
+		if w.cmd != nil {
+			w.in.Close()
+			w.kill()
+		}
+		switch st {
+		case callOK:
+			outs[i] = pOutcome{Status: "ok", Resp: resp}
+			stats["slow_cases_completed_when_rerun_alone"]++
+		case callCrashed:
+			outs[i] = pOutcome{Status: "crash", Detail: headTail(detail, 3000, 3000)}
+		}
+	}
 		if pp.post != nil {
 			runs += pp.post(pp, pw, reqs, owner, outs, env, rep, seed, stats)
 		}
